@@ -50,7 +50,7 @@ def main():
         rc, out = sh("go build ./... 2>&1 | tail -20", cwd=wt)
         res["build_out"] = out.strip()[-800:]
         t = []
-        for m in (".", "tests/fieldmask", "tests/unknown_fields"):
+        for m in (".",):  # the nested modules have no checked-in generated code and no baseline tests
             rc, out = sh("go test -vet=off -count=1 ./... 2>&1 | grep -v '^ok\\|no test files' | tail -15", cwd=os.path.join(wt, m))
             t.append(out.strip())
         res["tests_fail_output"] = [x for x in t if x]
